@@ -458,6 +458,10 @@ func (it *Interp) eval(fr *frame, e Expr) Value {
 		it.stdinPos++
 		return Value{T: TString, S: v}
 	}
+	if a, ok := e.(AppCall); ok {
+		// a command chain used as one value: its standard output
+		return it.evalApp(fr, a)[0]
+	}
 	it.undef("interpreter: unsupported expression %T", e)
 	return Value{}
 }
